@@ -52,6 +52,7 @@ def run(ctx, model_ok):
         cases += json.load(open(corpus))
     # the histories of repaired defects (known_findings.json, kind fixed) run first
     cases += [dict(rp) for rp in getattr(ctx, "fixed_replays", []) if "items" in rp and "cfg" in rp]
+    cases += cc.enumerated_import_cases()
     while len(cases) < n:
         cases.append(cc.gen_case(rng, sys_level=True, imports=True))
     impl = cc.impl_results(cases)
